@@ -516,6 +516,14 @@ impl AsyncGenerator {
         generator.borrow_mut().data_mut().context = Some(generator_context);
 
         // 8. Assert: result is never an abrupt completion.
+        //
+        // The exception is an error that script code cannot catch (a runtime limit): the body
+        // could not turn it into a rejection, so it is handed to the caller.
+        if let CompletionRecord::Throw(err) = &result
+            && !err.is_catchable()
+        {
+            return Err(err.clone());
+        }
         assert!(!result.is_throw_completion());
 
         // 9. Assert: When we return here, genContext has already been removed from the execution context stack and
